@@ -1165,9 +1165,13 @@ impl FatVolume {
                         end_cluster,
                     ) {
                         Ok(cluster) => Some(cluster),
+                        // We just took the last free cluster - that's not a failure
+                        Err(Error::NotEnoughSpace) => None,
                         Err(e) => return Err(e),
                     }
                 }
+                // We just took the last free cluster - that's not a failure
+                Err(Error::NotEnoughSpace) => None,
                 Err(e) => return Err(e),
             };
         debug!("Next free cluster is {:?}", self.next_free_cluster);
